@@ -3,3 +3,4 @@ CONSTANTS
   MaxLen = 2
   SetMax = 3
 INVARIANT MapLawsAssoc
+INVARIANT ExtensionMapLaws
